@@ -56,3 +56,6 @@ Definition opinion_cm (pAffect pStifle : Q) : cmodel :=
 (* for the examples: the event-function entries of a run (program, time, element) *)
 Definition handlers_of_ex (o : list obs) : list (nat * Q * Kernel.elem) :=
   flat_map (fun x => match x with OHandler k t _ e (Some _) => [(k, t, e)] | _ => [] end) o.
+(* ... and the posted event functions fired (program, time, element) *)
+Definition posted_of_ex (o : list obs) : list (nat * Q * Kernel.elem) :=
+  flat_map (fun x => match x with OHandler k t _ e None => [(k, t, e)] | _ => [] end) o.
